@@ -383,3 +383,134 @@ def gen_range_deletes(nkeys, klen=200, vlen=10, every_bucket=0, touch=None, page
             lines.append("drop 4")
             lines.append("close")
     return lines
+
+
+def probe_keys(keys, r, limit=None):
+    """present keys, gaps next to them, below the minimum, above the maximum"""
+    ks = sorted(keys)
+    out = [b"", b"\x00", b"\xff" * 4]
+    for k in ks:
+        out.append(k)
+        out.append(k + b"\x00")
+        if k:
+            out.append(k[:-1] + bytes([max(0, k[-1] - 1)]) + b"\xff")
+            out.append(k[:-1])
+    out = list(dict.fromkeys(out))
+    if limit and len(out) > limit:
+        fixed = out[:3]
+        rest = out[3:]
+        r.shuffle(rest)
+        out = fixed + rest[: limit - 3]
+    return out
+
+
+def read_battery(lines, t, h, keys, r, nseek=12, nrange=24):
+    pk = probe_keys(keys, r, 60)
+    lines.append("scan %d %d" % (t, h))
+    lines.append("buckets %d %d" % (t, h))
+    lines.append("kvpairs %d %d" % (t, h))
+    lines.append("nextint %d %d" % (t, h))
+    for k in r.sample(pk, min(nseek, len(pk))):
+        lines.append("seek %d %d %s" % (t, h, hx(k)))
+        lines.append("get %d %d %s" % (t, h, hx(k)))
+    kinds = ["i", "e", "u"]
+    for _ in range(nrange):
+        a, b = r.choice(pk), r.choice(pk)
+        ka, kb = r.choice(kinds), r.choice(kinds)
+        lo = "u" if ka == "u" else "%s:%s" % (ka, hx(a))
+        hi = "u" if kb == "u" else "%s:%s" % (kb, hx(b))
+        lines.append("range %d %d %s %s" % (t, h, lo, hi))
+
+
+def gen_emptied_leaves(nkeys, seed, n, klen=200, pagesize=1024):
+    """C07: inside one write transaction, empty / nearly empty leaves and insert at leaf
+    boundaries, with the full read API after each step"""
+    r = random.Random(seed)
+    lines = []
+    for c in range(n):
+        i = r.randrange(0, nkeys)
+        j = min(nkeys, i + r.randrange(1, 10))
+        every_bucket = r.choice([0, 0, 5])
+        lines.append("hist el%d-%d-%d-b%d" % (c, i, j, every_bucket))
+        lines.append("cfg pagesize=%d numpages=32 strict=0 populate=0" % pagesize)
+        lines.append("open")
+        lines.append("begin 1 w")
+        lines.append("mkb 1 1 0 %s" % hx(b"root"))
+        keys = set()
+        for x in range(nkeys):
+            if every_bucket and x % every_bucket == 0:
+                lines.append("mkb 1 %d 1 %s" % (100 + x, hx(dkey(x, klen))))
+            else:
+                lines.append("put 1 1 %s %s" % (hx(dkey(x, klen)), hx(bytes([65 + x % 26]) * 10)))
+            keys.add(dkey(x, klen))
+        lines.append("commit 1")
+        lines.append("begin 2 w")
+        lines.append("getb 2 1 0 %s" % hx(b"root"))
+        for x in range(i, j):
+            if every_bucket and x % every_bucket == 0:
+                lines.append("delb 2 1 %s" % hx(dkey(x, klen)))
+            else:
+                lines.append("del 2 1 %s" % hx(dkey(x, klen)))
+            keys.discard(dkey(x, klen))
+            if r.random() < 0.3:
+                lines.append("scan 2 1")
+        read_battery(lines, 2, 1, keys, r)
+        # insert around the hole and at the extremes
+        for k in [dkey(i, klen)[:-1], dkey(j - 1, klen) + b"\x01", b"", b"zzzz", dkey(i, klen)]:
+            if r.random() < 0.6:
+                lines.append("put 2 1 %s %s" % (hx(k), hx(b"new")))
+                keys.add(k)
+                lines.append("scan 2 1")
+        read_battery(lines, 2, 1, keys, r, 6, 10)
+        lines.append("dump 2")
+        lines.append(r.choice(["commit 2", "commit 2", "drop 2"]))
+        lines.append("begin 3 r")
+        lines.append("dump 3")
+        lines.append("drop 3")
+        lines.append("close")
+    return lines
+
+
+def gen_queries(seed, n, pagesize=1024):
+    """C08: committed and mid-transaction buckets of several shapes × seek keys × bound pairs"""
+    r = random.Random(seed)
+    lines = []
+    shapes = [(0, 200), (1, 200), (3, 200), (12, 200), (40, 200), (90, 200), (60, 30), (300, 12)]
+    for c in range(n):
+        nk, klen = shapes[c % len(shapes)]
+        lines.append("hist q%d-n%d-k%d" % (c, nk, klen))
+        lines.append("cfg pagesize=%d numpages=32 strict=0 populate=0" % pagesize)
+        lines.append("open")
+        lines.append("begin 1 w")
+        lines.append("mkb 1 1 0 %s" % hx(b"q"))
+        keys = set()
+        hn = 100
+        for x in range(nk):
+            k = dkey(x * 3 + 1, klen)
+            if r.random() < 0.15:
+                hn += 1
+                lines.append("mkb 1 %d 1 %s" % (hn, hx(k)))
+            else:
+                lines.append("put 1 1 %s %s" % (hx(k), hx(bytes([r.randrange(256)]) * r.choice([0, 1, 20, 300]))))
+            keys.add(k)
+        read_battery(lines, 1, 1, keys, r, 8, 16)
+        lines.append("commit 1")
+        lines.append("begin 2 r")
+        lines.append("getb 2 1 0 %s" % hx(b"q"))
+        read_battery(lines, 2, 1, keys, r, 30, 80)
+        lines.append("drop 2")
+        # mid-transaction: delete a third, insert some, read again
+        lines.append("begin 3 w")
+        lines.append("getb 3 1 0 %s" % hx(b"q"))
+        for k in sorted(keys):
+            if r.random() < 0.35:
+                lines.append("del 3 1 %s" % hx(k))  # may hit a bucket: IncompatibleValue, fine
+        # the generator does not know which deletes hit buckets; probe around all original keys
+        for _ in range(r.randrange(0, 6)):
+            k = dkey(r.randrange(0, nk * 3 + 3), klen)
+            lines.append("put 3 1 %s %s" % (hx(k), hx(b"mid")))
+            keys.add(k)
+        read_battery(lines, 3, 1, keys, r, 20, 40)
+        lines.append("drop 3")
+        lines.append("close")
+    return lines
